@@ -165,12 +165,18 @@ func (e *env) adminQ(db, q string) (*proc.QueryResult, error) {
 	return e.s.Query(db, q, e.admin)
 }
 
-func (e *env) mustAdminQ(db, q string) bool {
-	if _, err := e.adminQ(db, q); err != nil {
-		e.c.Broken("[%s] fixture statement %q: %v", e.tag(), q, err)
-		return false
+// fixtureRetry runs fixture until it succeeds (an object that a request deleted may be
+// re-creatable only after the server finished deleting it); gives up as a broken run.
+func (e *env) fixtureRetry() bool {
+	var err error
+	for i := 0; i < 60; i++ {
+		if err = e.fixture(); err == nil {
+			return true
+		}
+		time.Sleep(500 * time.Millisecond)
 	}
-	return true
+	e.c.Broken("[%s] fixture: %v", e.tag(), err)
+	return false
 }
 
 // startServer starts the flavour's server with authentication on, creates the
@@ -180,8 +186,8 @@ func startServer(c *vf.Ctx, bin string, fl flavour) (*env, error) {
 	dir := filepath.Join(c.Scratch, "srv-"+fl.Name)
 	_ = os.RemoveAll(dir)
 	extra := map[string][]string{
-		"http": {`shared-secret = "` + sharedSecret + `"`, `pprof-enabled = true`},
-		"data": {`write-cold-duration = "10h"`},
+		"http":          {`shared-secret = "` + sharedSecret + `"`, `pprof-enabled = true`},
+		"data.memtable": {`write-cold-duration = "10h"`},
 	}
 	for k, v := range fl.Extra {
 		for _, ln := range v {
@@ -245,51 +251,72 @@ func startServer(c *vf.Ctx, bin string, fl flavour) (*env, error) {
 
 // fixture creates databases, users, grants and data (idempotent: it is also the repair
 // step after a request changed something it should not have).
-func (e *env) fixture() bool {
-	ok := true
+func (e *env) fixture() error {
+	run := func(q string) error {
+		if _, err := e.adminQ("", q); err != nil {
+			return fmt.Errorf("%q: %v", q, err)
+		}
+		return nil
+	}
+	var stmts []string
 	for _, db := range []string{db1, db2, sacDB} {
-		ok = e.mustAdminQ("", "CREATE DATABASE "+db) && ok
+		stmts = append(stmts, "CREATE DATABASE "+db)
 	}
 	for _, u := range []string{roUser, woUser, otherUser, victimUser, grantUser} {
-		ok = e.mustAdminQ("", fmt.Sprintf("CREATE USER %s WITH PASSWORD '%s'", u, userPass)) && ok
+		stmts = append(stmts, fmt.Sprintf("CREATE USER %s WITH PASSWORD '%s'", u, userPass))
 	}
-	ok = e.mustAdminQ("", "GRANT READ ON "+db1+" TO "+roUser) && ok
-	ok = e.mustAdminQ("", "GRANT WRITE ON "+db1+" TO "+woUser) && ok
-	ok = e.mustAdminQ("", "GRANT ALL ON "+db2+" TO "+otherUser) && ok
-	ok = e.mustAdminQ("", "GRANT ALL ON "+db1+" TO "+victimUser) && ok
-	if !ok {
-		return false
+	stmts = append(stmts, "GRANT READ ON "+db1+" TO "+roUser, "GRANT WRITE ON "+db1+" TO "+woUser,
+		"GRANT ALL ON "+db2+" TO "+otherUser, "GRANT ALL ON "+db1+" TO "+victimUser)
+	for _, q := range stmts {
+		if err := run(q); err != nil {
+			return err
+		}
 	}
 	lines := ""
 	for i := 0; i < 6; i++ {
 		lines += fmt.Sprintf("%s,host=h%d v=%d,f=%d.5 %d\n", mst1, i%2, i, i, int64(1700000000+i)*1e9)
 	}
+	// (with product-type = "logkeeper" a line-protocol write to a time-series database
+	// crashes the server in IndexBuilder.GetPrimaryIndex, so that flavour gets log records only)
 	for _, db := range []string{db1, db2, sacDB} {
+		if e.fl.LogKeeper {
+			break
+		}
 		w := e.s.Write(db, lines, e.admin)
 		if !w.Acked() {
-			e.c.Broken("[%s] fixture write to %s: %d %s %v", e.tag(), db, w.Status, w.Body, w.Err)
-			return false
+			return fmt.Errorf("seed write to %s: %d %s %v", db, w.Status, w.Body, w.Err)
 		}
 	}
 	if e.fl.LogKeeper {
 		for _, rp := range []string{repo1, "sacrepo"} {
-			r := e.send(e.asAdmin(request{Method: "POST", Path: "/api/v1/repository/" + rp}))
+			r := e.send(e.asAdmin(specFor(Route{Method: "POST", Pattern: "/api/v1/repository/{repository}"}, target{NewName: rp})))
 			if r.Status/100 != 2 && !strings.Contains(r.Body, "exist") {
-				e.c.Broken("[%s] fixture repository %s: %d %s", e.tag(), rp, r.Status, r.Body)
-				return false
+				return fmt.Errorf("repository %s: %d %s", rp, r.Status, r.Body)
 			}
-			r = e.send(e.asAdmin(request{Method: "POST", Path: "/api/v1/logstream/" + rp + "/" + stream1}))
+			r = e.send(e.asAdmin(specFor(Route{Method: "POST", Pattern: "/api/v1/logstream/{repository}/{logStream}"}, target{Repo: rp, NewName: stream1})))
 			if r.Status/100 != 2 && !strings.Contains(r.Body, "exist") {
-				e.c.Broken("[%s] fixture logstream %s/%s: %d %s", e.tag(), rp, stream1, r.Status, r.Body)
-				return false
+				return fmt.Errorf("logstream %s/%s: %d %s", rp, stream1, r.Status, r.Body)
 			}
 		}
-		ok = e.mustAdminQ("", "GRANT READ ON "+repo1+" TO "+roUser) && ok
-		ok = e.mustAdminQ("", "GRANT WRITE ON "+repo1+" TO "+woUser) && ok
-		ok = e.mustAdminQ("", "GRANT ALL ON "+repo1+" TO "+victimUser) && ok
+		for _, rp := range []string{repo1, "sacrepo"} {
+			rq := specFor(Route{Method: "POST", Pattern: "/repo/{repository}/logstreams/{logStream}/records"}, target{Repo: rp, LS: stream1, PromMilli: 1700000000000})
+			r := e.send(e.asAdmin(rq))
+			if r.Status/100 != 2 {
+				return fmt.Errorf("seed log record to %s/%s: %d %s", rp, stream1, r.Status, r.Body)
+			}
+		}
+		for _, q := range []string{"GRANT READ ON " + repo1 + " TO " + roUser, "GRANT WRITE ON " + repo1 + " TO " + woUser,
+			"GRANT ALL ON " + repo1 + " TO " + victimUser} {
+			if err := run(q); err != nil {
+				return err
+			}
+		}
 	}
 	// visibility rule: wait until the seed series are established
 	for _, db := range []string{db1, db2, sacDB} {
+		if e.fl.LogKeeper {
+			break
+		}
 		seen := false
 		for i := 0; i < 100 && !seen; i++ {
 			res, err := e.adminQ(db, "SELECT count(v) FROM "+mst1)
@@ -306,7 +333,7 @@ func (e *env) fixture() bool {
 		}
 	}
 	_ = e.s.Flush()
-	return ok
+	return nil
 }
 
 func (e *env) asAdmin(r request) request {
